@@ -32,7 +32,7 @@ def _icap_csv_columns_read(
         if delimiter is None:
             delimiter = line[0]  # Should be delimiter
         nlines = np.count_nonzero(
-            np.genfromtxt([line], dtype="U1", delimiter=delimiter)
+            np.genfromtxt([line], dtype="U1", delimiter=delimiter, comments=None)
         )
         if nlines == 0:
             raise ValueError(
@@ -50,6 +50,7 @@ def _icap_csv_columns_read(
             _read_lines(fp, line_type, replace_decimal=comma_decimal),
             dtype=dtype,
             delimiter=delimiter,
+            comments=None,  # '#' is data (e.g. "Sample #1"), not the start of a comment
         )
 
         names, idx = np.unique(data["name"], return_index=True)
@@ -133,6 +134,7 @@ def _icap_csv_rows_read(
             dtype=np.float64,
             usecols=np.flatnonzero(col_mask),
             delimiter=delimiter,
+            comments=None,
         )
         # genfromtxt squeezes single samples (or columns) to 1d
         data = data.reshape(-1, np.count_nonzero(col_mask))
